@@ -15,7 +15,7 @@ from fractions import Fraction as F
 warnings.filterwarnings('ignore')
 import numpy as np
 
-from common import f2b, b2f, frac_of, cont_match, ts, ts_in, ZONES, secs, run_driver_json, Tally, rng_for, scale_of
+from common import f2b, b2f, frac_of, cont_match, ts, ts_in, ZONES, secs, run_driver_json, Tally, rng_for, scale_of, hv
 
 from qstrader import settings
 settings.set_print_events(False)
@@ -95,7 +95,7 @@ def gen_fee(rng, allow_big=False):
 def gen_sizer_case(rng, kind):
     n = rng.choice([0, 1, 1, 2, 3, 4, 5, 7])
     assets = rng.sample(ALL, min(n, len(ALL)))
-    equity = rng.choice([1e6, 1e5, 325000.0, 687523.0, rng.uniform(1e3, 1e7), 1e12])
+    equity = hv(rng, rng.choice([1e6, 1e5, 325000.0, 687523.0, rng.uniform(1e3, 1e7), 1e12]), 'pos')
     if rng.random() < 0.04:
         equity = rng.choice([0.0, -1e4])
     fee = gen_fee(rng, allow_big=True)
@@ -118,7 +118,8 @@ def gen_sizer_case(rng, kind):
                 w = rng.choice([1e-9, -3e-9, 2e-10])
             elif mode < 0.2:
                 w = abs(w) if rng.random() < 0.5 else -abs(w)
-        p = rng.choice([round(rng.uniform(1, 500), 2), rng.uniform(0.5, 900), float(rng.randint(1, 300))])
+        p = hv(rng, rng.choice([round(rng.uniform(1, 500), 2), rng.uniform(0.5, 900), float(rng.randint(1, 300))]), 'pos')
+        w = hv(rng, w, 'pos' if kind == 'dw' else 'any')
         if rng.random() < 0.04:
             p = None
         items.append([a, w, p])
